@@ -255,24 +255,22 @@ class _AsyncioReadWriteLock(ReadWriteLock):
     def subsystem(self) -> str:
         return 'asyncio'
 
-    async def _acquire_read(self) -> bool:
-        async with self._read_lock:
-            self._counter += 1
-            return self._counter == 1
-
-    async def _release_read(self) -> bool:
-        async with self._read_lock:
-            self._counter -= 1
-            return self._counter == 0
-
     @asynccontextmanager
     async def read_lock(self) -> AsyncIterator[None]:
-        if await self._acquire_read():
-            await self._write_lock.acquire()
+        # The first reader takes the write mutex on behalf of all readers. It
+        # keeps the read mutex while waiting for it, so later readers queue up
+        # behind it instead of entering alongside an active writer. The
+        # counter is only changed once the mutex is held, so a cancelled
+        # waiter leaves nothing behind.
+        async with self._read_lock:
+            if self._counter == 0:
+                await self._write_lock.acquire()
+            self._counter += 1
         try:
             yield
         finally:
-            if await self._release_read():
+            self._counter -= 1
+            if self._counter == 0:
                 self._write_lock.release()
 
     @asynccontextmanager
